@@ -403,3 +403,281 @@ Section Resolve.
     specialize (E []). rewrite !app_nil_r in E. exact E.
   Qed.
 End Resolve.
+
+(* ================================================================ snippet resolution leaves the forest alone *)
+Lemma walk_inode cfg stack rec P Pv :
+  (forall x, P x = true -> no_snippet cfg x = true) ->
+  forall n, inode P Pv n = true -> walk_node' cfg stack rec n = Ok [n].
+Proof.
+  intros HP. induction n as [nm v rp at_ ch sc IH] using anode_ind'. intros Hs.
+  destruct (inode_inv P Pv _ Hs) as [av [E [Hn [Ha [Hp Hch]]]]]. cbn [an_name an_repeat an_children] in *.
+  injection E as -> ->. subst sc. cbn [walk_node'].
+  assert (Hsn : snippet_of cfg stack nm = None).
+  { destruct nm as [x|]; [|reflexivity]. apply snippet_of_none, HP, Hn. }
+  rewrite Hsn.
+  assert (Hk : (fix walk_kids (k : list anode) : res (list anode) :=
+                  match k with
+                  | [] => Ok []
+                  | c :: k' => let* a := walk_node' cfg stack rec c in let* b := walk_kids k' in Ok (a ++ b)
+                  end) ch = Ok ch).
+  { clear Hs. induction ch as [|c k IHk]; [reflexivity|].
+    inversion IH as [|c' k' Hc Hk']; subst. cbn [forallb] in Hch. apply andb_prop in Hch. destruct Hch as [H1 H2].
+    rewrite (Hc H1). cbn [bind]. rewrite (IHk Hk' H2). reflexivity. }
+  rewrite Hk. reflexivity.
+Qed.
+
+Lemma walk_list_inode cfg stack rec P Pv :
+  (forall x, P x = true -> no_snippet cfg x = true) ->
+  forall l, forallb (inode P Pv) l = true -> walk_list' cfg stack rec l = Ok l.
+Proof.
+  intros HP. induction l as [|c l IH]; intros H; [reflexivity|].
+  cbn [forallb] in H. apply andb_prop in H. destruct H as [H1 H2].
+  cbn [walk_list']. rewrite (walk_inode cfg stack rec P Pv HP c H1). cbn [bind]. rewrite (IH H2). reflexivity.
+Qed.
+
+(* ================================================================ transform: implicit names, attributes kept *)
+Lemma av_merge rv Pv av : av_ok Pv av = true -> merge_attributes rv (av_attrs av) = av_attrs av.
+Proof.
+  destruct av as [[k w]|]; [|reflexivity]. cbn [av_ok]. intros H. apply andb_prop in H. destruct H as [Hk _].
+  destruct (sh_key_cases k Hk) as [-> | ->]; reflexivity.
+Qed.
+
+Lemma av_drop nm av : drop_empty_named nm (av_attrs av) = av_attrs av.
+Proof.
+  destruct av as [[k w]|]; [|reflexivity]. unfold drop_empty_named. cbn [av_attrs nonempty filter].
+  assert (E : is_empty_attribute (sh_aattr k w) = false) by reflexivity. rewrite E, andb_false_r. reflexivity.
+Qed.
+
+Lemma av_xsl Pv av :
+  av_ok Pv av = true ->
+  match av_attrs av with
+  | Some l => Some (filter (fun a => negb (opt_str_eqb (aa_name a) s_select)) l)
+  | None => None
+  end = av_attrs av.
+Proof.
+  destruct av as [[k w]|]; [|reflexivity]. cbn [av_ok]. intros H. apply andb_prop in H. destruct H as [Hk _].
+  destruct (sh_key_cases k Hk) as [-> | ->]; reflexivity.
+Qed.
+
+Section Transform.
+  Variable cfg : mconfig.
+  Variables P Pv : str -> bool.
+  Hypothesis HP : forall x, P x = true -> x <> [] /\ not_lorem x = true.
+
+  Lemma rname_fine pn nm : nv_ok P nm = true -> rname cfg pn nm <> [] /\ not_lorem (rname cfg pn nm) = true.
+  Proof.
+    destruct nm as [x|]; cbn [nv_ok rname]; [apply HP|]. intros _.
+    rewrite implicit_name_of_eq. pose proof (implicit_of_fine cfg (parent_str cfg pn)) as H. unfold value_fine in H.
+    repeat (apply andb_prop in H; let H' := fresh in destruct H as [H H']).
+    split; [|assumption]. destruct (implicit_of cfg (parent_str cfg pn)); [discriminate|discriminate].
+  Qed.
+
+  Lemma transform_node_inode pn top nm rp av ch :
+    nv_ok P nm = true -> av_ok Pv av = true -> some_payload nm av = true ->
+    fst (transform_node cfg pn top (ANode nm None rp (av_attrs av) ch false)) =
+    ANode (Some (rname cfg pn nm)) None rp (av_attrs av) ch false.
+  Proof.
+    intros Hn Ha Hp. destruct (rname_fine pn nm Hn) as [Hy1 Hy2].
+    assert (Enm1 : match nm, nonempty (av_attrs av) with
+                   | None, Some _ | Some [], Some _ => Some (implicit_name_of cfg pn)
+                   | _, _ => nm
+                   end = Some (rname cfg pn nm)).
+    { destruct nm as [[|c x]|]; cbn [rname].
+      - cbn [nv_ok] in Hn. destruct (HP [] Hn) as [Hne _]. contradiction.
+      - destruct (nonempty (av_attrs av)); reflexivity.
+      - destruct av as [[k w]|]; [reflexivity|discriminate]. }
+    unfold transform_node. rewrite Enm1, (av_merge _ Pv av Ha).
+    set (y := rname cfg pn nm) in *. clearbody y. destruct y as [|c y]; [contradiction|].
+    unfold not_lorem in Hy2. destruct (match_lorem (c :: y)); [|discriminate].
+    cbv zeta. cbn [fst nonempty].
+    repeat match goal with |- context [if ?b then _ else _] => destruct b end;
+      rewrite ?(av_xsl Pv av Ha), ?av_drop; reflexivity.
+  Qed.
+
+  Lemma transform_tree_inode :
+    forall n, inode P Pv n = true -> forall pn top pending, fst (transform_tree cfg pn top pending n) = rnode cfg pn n.
+  Proof.
+    induction n as [nm v rp at_ ch sc IH] using anode_ind'. intros Hs pn top pending.
+    destruct (inode_inv P Pv _ Hs) as [av [E [Hn [Ha [Hp Hch]]]]]. cbn [an_name an_repeat an_children] in *.
+    injection E as -> ->. subst sc.
+    rewrite transform_tree_eq. cbv zeta.
+    assert (E0 : (if pending && is_input_name nm
+                  then ANode nm None rp (drop_empty_named s_id (av_attrs av)) ch false
+                  else ANode nm None rp (av_attrs av) ch false) = ANode nm None rp (av_attrs av) ch false)
+      by (rewrite av_drop; destruct (pending && is_input_name nm); reflexivity).
+    rewrite E0.
+    destruct (transform_node cfg pn top (ANode nm None rp (av_attrs av) ch false)) as [n1 found] eqn:Etn.
+    assert (En1 : n1 = ANode (Some (rname cfg pn nm)) None rp (av_attrs av) ch false).
+    { change n1 with (fst (n1, found)). rewrite <- Etn. apply transform_node_inode; assumption. }
+    subst n1. set (x := rname cfg pn nm).
+    assert (Hgo : forall pd, fst (tt_kids cfg (Some x) ch pd) = map (rnode cfg (Some (Some x))) ch).
+    { clear Hs E0 Etn. induction ch as [|c k IHk]; intros pd; [reflexivity|].
+      inversion IH as [|c' k' Hc Hk']; subst. cbn [forallb] in Hch. apply andb_prop in Hch. destruct Hch as [H1 H2].
+      specialize (Hc H1 (Some (Some x)) false pd). cbn [tt_kids]. fold (tt_kids cfg (Some x)).
+      destruct (transform_tree cfg (Some (Some x)) false pd c) as [c1 pd1]. cbn [fst] in Hc. subst c1.
+      specialize (IHk Hk' H2 pd1). destruct (tt_kids cfg (Some x) k pd1) as [r' pd2].
+      cbn [fst map] in *. subst r'. reflexivity. }
+    match goal with |- context [tt_kids cfg (Some x) ch ?pd] => specialize (Hgo pd); destruct (tt_kids cfg (Some x) ch pd) as [ch' pd2] end.
+    cbn [fst] in *. subst ch'. reflexivity.
+  Qed.
+
+  Lemma transform_list_inode :
+    forall l, forallb (inode P Pv) l = true -> transform_list cfg l = map (rnode cfg None) l.
+  Proof.
+    induction l as [|c l IH]; intros H; [reflexivity|].
+    cbn [forallb] in H. apply andb_prop in H. destruct H as [H1 H2].
+    cbn [transform_list map]. rewrite (transform_tree_inode c H1), (IH H2). reflexivity.
+  Qed.
+End Transform.
+
+(* ================================================================ the formatter's tag events *)
+Lemma format_nest_gen c forest :
+  cfg_clean c = true ->
+  (forall n, In n forest -> node_clean n = true /\ named_tree n = true /\ Forall nonvoid (tree_events c n)) ->
+  nestT 0 (tags (html_format c forest)) = map (fun x => (fst x, tag_name c (snd x))) (pnamesL 0 forest).
+Proof.
+  intros Hc Hall.
+  rewrite (format_events_all c Hc forest) by (apply forallb_forall; intros n Hn; apply (Hall n Hn)).
+  rewrite nestT_erase by (apply Forall_flat_map; intros n Hn; apply (Hall n Hn)).
+  rewrite (nest_forest c forest) by (apply forallb_forall; intros n Hn; apply (Hall n Hn)).
+  unfold pnamesL. rewrite !map_flat_map. apply flat_map_ext. intros n. apply dn_pnames.
+Qed.
+
+Section FormatI.
+  Variable c : oconfig.
+  Variable cfg : mconfig.
+  Variables P Pv : str -> bool.
+  Hypothesis HP : forall x, P x = true -> x <> [] /\ nolt x = true /\ nocrlf x = true /\ name_start x = true.
+  Hypothesis HPv : forall w, Pv w = true -> nolt w = true.
+
+  Lemma rname_clean pn nm : nv_ok P nm = true ->
+    rname cfg pn nm <> [] /\ nolt (rname cfg pn nm) = true /\ nocrlf (rname cfg pn nm) = true /\ name_start (rname cfg pn nm) = true.
+  Proof.
+    destruct nm as [x|]; cbn [nv_ok rname]; [apply HP|]. intros _.
+    rewrite implicit_name_of_eq. pose proof (implicit_of_fine cfg (parent_str cfg pn)) as H. unfold value_fine in H.
+    repeat (apply andb_prop in H; let H' := fresh in destruct H as [H H']).
+    repeat split; try assumption. destruct (implicit_of cfg (parent_str cfg pn)); [discriminate|discriminate].
+  Qed.
+
+  Lemma av_clean av : av_ok Pv av = true ->
+    forallb attr_clean (match av_attrs av with Some l => l | None => [] end) = true.
+  Proof.
+    destruct av as [[k w]|]; [|reflexivity]. cbn [av_ok av_attrs forallb]. intros H. apply andb_prop in H. destruct H as [Hk Hw].
+    unfold attr_clean, sh_aattr. cbn [aa_name aa_value oval_nolt toks_nolt forallb tok_nolt]. rewrite (HPv w Hw).
+    destruct (sh_key_cases k Hk) as [-> | ->]; reflexivity.
+  Qed.
+
+  Lemma rnode_facts : forall n, inode P Pv n = true -> forall pn,
+    node_clean (rnode cfg pn n) = true /\ named_tree (rnode cfg pn n) = true /\ Forall nonvoid (tree_events c (rnode cfg pn n)).
+  Proof.
+    induction n as [nm v rp at_ ch sc IH] using anode_ind'. intros Hs pn.
+    destruct (inode_inv P Pv _ Hs) as [av [E [Hn [Ha [Hp Hch]]]]]. cbn [an_name an_repeat an_children] in *.
+    injection E as -> ->. subst sc.
+    destruct (rname_clean pn nm Hn) as [Hne [H1 [H2 H3]]].
+    cbn [rnode]. set (x := rname cfg pn nm) in *.
+    assert (Hk : forall k, In k (map (rnode cfg (Some (Some x))) ch) ->
+                   node_clean k = true /\ named_tree k = true /\ Forall nonvoid (tree_events c k)).
+    { intros k Hk. apply in_map_iff in Hk. destruct Hk as [k0 [<- Hk0]].
+      rewrite Forall_forall in IH. rewrite forallb_forall in Hch. apply (IH k0 Hk0 (Hch k0 Hk0)). }
+    repeat split.
+    - cbn [node_clean]. rewrite H1, H2, H3, (av_clean av Ha). cbn [oval_nolt andb].
+      apply forallb_forall. intros k Hk'. apply (Hk k Hk').
+    - cbn [named_tree]. destruct x as [|x0 x']; [contradiction|]. cbn [truthy_s andb].
+      apply forallb_forall. intros k Hk'. apply (Hk k Hk').
+    - destruct x as [|x0 x']; [contradiction|].
+      cbn [tree_events]. unfold self_closed. cbn [an_self andb].
+      constructor; [exact I|]. apply Forall_app. split; [|constructor; [exact I|constructor]].
+      apply Forall_flat_map. intros k Hk'. apply (Hk k Hk').
+  Qed.
+End FormatI.
+
+(* ================================================================ token trees are clean for the converter *)
+Lemma ileaf_clean P Pv l :
+  ileaf P Pv l = true ->
+  clean_otoks (lf_name l) = true /\ clean_oattrs (lf_attrs l) = true /\ clean_otoks (lf_value l) = true /\
+  clean_rep (lf_repeat l) = true.
+Proof.
+  intros H. destruct (ileaf_inv P Pv l H) as [nv [av [Hn [Ha [Hv [Hs [H1 [H2 [H3 H4]]]]]]]]].
+  repeat split; [| |rewrite Hv; reflexivity|exact H4].
+  - unfold name_view in Hn. destruct (lf_name l) as [ts|]; [|reflexivity].
+    unfold lit_name in Hn. destruct ts as [|t [|t2 r]]; try discriminate.
+    destruct (tk t) eqn:Et; try discriminate. cbn [clean_otoks clean_toks forallb]. unfold clean_tok. rewrite Et. reflexivity.
+  - unfold attrs_view in Ha. destruct (lf_attrs l) as [[|a [|a2 r]]|]; try discriminate; [|reflexivity].
+    destruct (sh_attr_view a) as [[k w]|] eqn:Ev; [|discriminate].
+    unfold sh_attr_view in Ev. destruct a as [an avl ae am]. cbn [ta_name ta_value ta_expression ta_multiple] in Ev.
+    destruct an as [[|nt [|nt2 nr]]|]; try discriminate.
+    destruct avl as [[|vt [|vt2 vr]]|]; try discriminate.
+    destruct ae; [discriminate|]. destruct am; [discriminate|].
+    destruct (tk nt) eqn:Ent; try discriminate. destruct (tk vt) eqn:Evt; try discriminate.
+    cbn [clean_oattrs forallb]. unfold clean_attr. cbn [ta_name ta_value clean_otoks clean_toks forallb].
+    unfold clean_tok. rewrite Ent, Evt. reflexivity.
+Qed.
+
+Lemma inamed_clean P Pv : forall node, inamed P Pv node = true -> clean_node node = true.
+Proof.
+  induction node as [a b c r s els IH|els r IH] using tnode_ind'; intros Hn; cbn [inamed clean_node] in *.
+  - apply andb_prop in Hn. destruct Hn as [Hl Hels].
+    destruct (ileaf_clean P Pv _ Hl) as [C1 [C2 [C3 C4]]]. cbn [lf_name lf_attrs lf_value lf_repeat] in *.
+    rewrite C1, C2, C3, C4. cbn [andb].
+    apply forallb_forall. intros x Hx. rewrite Forall_forall in IH. rewrite forallb_forall in Hels. apply IH; auto.
+  - apply andb_prop in Hn. destruct Hn as [Hr Hels]. rewrite Hr. cbn [andb].
+    apply forallb_forall. intros x Hx. rewrite Forall_forall in IH. rewrite forallb_forall in Hels. apply IH; auto.
+Qed.
+
+(* ================================================================ the whole pipeline, from the token tree *)
+(* written class / id values: not empty, harmless for the tag reader *)
+Definition value_sem (w : str) : bool := match w with [] => false | _ => true end && nolt w.
+
+(* From a token tree whose elements are a literal name and/or one class/id shorthand with a
+   literal value: expand succeeds and the tag chunks nest to the unrolled preorder list in which
+   every nameless element carries the implicit name for its parent's final name. *)
+Theorem expand_tree_I (P Pv : str -> bool) x s toks root :
+  (forall n, P n = true -> name_sem x n = true) ->
+  (forall w, Pv w = true -> value_sem w = true) ->
+  cfg_ok x = true ->
+  tokenize s = TOk toks -> parse (mc_jsx (xc_m x)) toks = POk root ->
+  forallb (inamed P Pv) root = true ->
+  (total_list root <= budget_of (mc_max_repeat (xc_m x)))%Z ->
+  exists st,
+    expand_markup x s = Ok st /\
+    nestT 0 (tags st) =
+      map (fun p => (fst p, tag_name (xc_o x) (snd p)))
+          (resolve_names (imp_model (xc_m x)) [] (flat_map (xshape [] 0) root)).
+Proof.
+  intros HP HPv Hc Ht Hp Hn Hb. unfold cfg_ok in Hc.
+  apply andb_prop in Hc. destruct Hc as [Hc Hclean]. apply andb_prop in Hc. destruct Hc as [Hsyn Htext].
+  set (m := xc_m x) in *.
+  assert (Htx : mc_text m = WNone) by (destruct (mc_text m); [reflexivity|discriminate|discriminate]).
+  assert (Hsem : forall n, P n = true ->
+            n <> [] /\ nolt n = true /\ nocrlf n = true /\ name_start n = true /\ no_snippet m n = true /\ not_lorem n = true).
+  { intros n H. specialize (HP n H). unfold name_sem in HP. fold m in HP.
+    repeat (apply andb_prop in HP; let H' := fresh in destruct HP as [HP H']).
+    repeat split; try assumption. destruct n; discriminate. }
+  assert (HP0 : forall n, P n = true -> n <> []) by (intros n H; apply (Hsem n H)).
+  assert (HP1 : forall n, P n = true -> no_snippet m n = true) by (intros n H; apply (Hsem n H)).
+  assert (HP2 : forall n, P n = true -> n <> [] /\ not_lorem n = true) by (intros n H; split; apply (Hsem n H)).
+  assert (HP3 : forall n, P n = true -> n <> [] /\ nolt n = true /\ nocrlf n = true /\ name_start n = true).
+  { intros n H. destruct (Hsem n H) as [A [B [C [D _]]]]. auto. }
+  assert (HPv1 : forall w, Pv w = true -> nolt w = true).
+  { intros w H. specialize (HPv w H). unfold value_sem in HPv. apply andb_prop in HPv. apply HPv. }
+  set (env := mkCenv (mc_text m) (mc_variables m) (mc_href m)).
+  set (forest := flat_map (unroll env []) root).
+  assert (Hcv : convert env (mc_max_repeat m) root = Ok forest).
+  { apply convert_enough; [exact Htx| |exact Hb]. apply forallb_forall. intros k Hk.
+    rewrite forallb_forall in Hn. apply (inamed_clean P Pv), Hn, Hk. }
+  assert (Hin : forallb (inode P Pv) forest = true).
+  { unfold forest. rewrite forallb_flat_map. apply forallb_forall. intros k Hk. rewrite forallb_forall in Hn.
+    apply (unroll_inamed env m P Pv HP0 k (Hn k Hk) [] None 0). }
+  assert (Hshape : pnamesL 0 (map (rnode m None) forest) = flat_map (ishape m None 0) root).
+  { unfold forest, pnamesL. rewrite map_flat_map, flat_map_flat_map. apply flat_map_ext_Forall. apply Forall_forall.
+    intros k Hk. rewrite forallb_forall in Hn. apply (unroll_inamed env m P Pv HP0 k (Hn k Hk) [] None 0). }
+  exists (html_format (xc_o x) (map (rnode m None) forest)). split.
+  - unfold expand_markup, markup_parse. fold m. unfold parse_abbr. rewrite Ht. fold m in Hp. rewrite Hp. fold env. rewrite Hcv. cbn [bind].
+    rewrite walk_resolve_eq. rewrite (walk_list_inode m [] _ P Pv HP1 forest Hin). cbn [bind].
+    rewrite (transform_list_inode m P Pv HP2 forest Hin).
+    rewrite (stringify_html _ _ _ Hsyn). reflexivity.
+  - rewrite (format_nest_gen (xc_o x) _ Hclean).
+    + rewrite Hshape, (resolve_forest m root). reflexivity.
+    + intros n Hn'. apply in_map_iff in Hn'. destruct Hn' as [n0 [<- Hn0]].
+      rewrite forallb_forall in Hin. apply (rnode_facts (xc_o x) m P Pv HP3 HPv1 n0 (Hin n0 Hn0) None).
+Qed.
